@@ -73,7 +73,7 @@ theorem good_emit {cfg : Cfg} {s : State} (h : Good cfg s) (e : Ev) : Good cfg (
 theorem good_count {cfg : Cfg} {s : State} (h : Good cfg s) (t : Int) :
     Good cfg (countMsg cfg s t) ∧ Step s (countMsg cfg s t) := by
   unfold countMsg; split
-  · exact ⟨h, Step.refl s⟩
+  · exact good_of_same h rfl rfl rfl rfl
   · exact good_of_same h rfl rfl rfl rfl
 
 /-- a write to a module that is in the table with an open socket never crashes -/
@@ -706,7 +706,7 @@ theorem top_io {s : State} (h : Top cfg s) (a : Bool) (w : List Nat) (rs : List 
 theorem top_ticks {s : State} (h : Top cfg s) : Top cfg (ticks cfg s) := by
   unfold ticks
   dsimp only
-  have h1 : Top cfg (if (cfg.timing && decide (s.now - s.tTiming > 900)) = true then
+  have h1 : Top cfg (if (cfg.timing && decide (s.now - s.tTiming > cfg.pTiming)) = true then
       { sendTiming cfg s with tTiming := s.now } else s) := by
     split
     · unfold sendTiming; dsimp only
@@ -714,9 +714,9 @@ theorem top_ticks {s : State} (h : Top cfg s) : Top cfg (ticks cfg s) := by
       have a2 := top_fwd ok hfuel a1 (mgrFrame cfg.mtTiming 0 cfg.szTiming (Body.timing (timingEntries cfg s.counts) (pidEntries s.mods)))
       exact top_same ok hfuel (top_same ok hfuel a2 _ rfl rfl rfl) _ rfl rfl rfl
     · exact h
-  generalize (if (cfg.timing && decide (s.now - s.tTiming > 900)) = true then
+  generalize (if (cfg.timing && decide (s.now - s.tTiming > cfg.pTiming)) = true then
       { sendTiming cfg s with tTiming := s.now } else s) = s1 at h1 ⊢
-  have h2 : Top cfg (if s1.now - s1.tTraffic > 1000 then sendTraffic cfg s1 else s1) := by
+  have h2 : Top cfg (if s1.now - s1.tTraffic > cfg.pTraffic then sendTraffic cfg s1 else s1) := by
     split
     · unfold sendTraffic; dsimp only
       have a1 : Top cfg ({ s1 with inTraffic := true } : State) := top_same ok hfuel h1 _ rfl rfl rfl
@@ -725,7 +725,7 @@ theorem top_ticks {s : State} (h : Top cfg s) : Top cfg (ticks cfg s) := by
       have a2 := top_foldl_fwd ok hfuel (trafficFrames cfg s1'.trafficSeq s1'.traffic) a1'
       exact top_same ok hfuel a2 _ rfl rfl rfl
     · exact h1
-  generalize (if s1.now - s1.tTraffic > 1000 then sendTraffic cfg s1 else s1) = s2 at h2 ⊢
+  generalize (if s1.now - s1.tTraffic > cfg.pTraffic then sendTraffic cfg s1 else s1) = s2 at h2 ⊢
   split
   · unfold sendActive; dsimp only
     have a0 := top_log ok hfuel h2 10
